@@ -563,7 +563,8 @@ func vh_C04_SetForInterface() {
 	a := vfIntList("a", 2, 0)
 	b := vfIntList("b", 2, 0)
 	s, o := SetForInterfaceFromArray(c05Box(a)), SetForInterfaceFromArray(c05Box(b))
-	ops := []string{"MapKey", "MapValue", "Add", "Add0", "RemoveKeys", "RemoveKeys0", "Clone", "Union", "UnionNil", "Intersection", "IntersectionNil", "Minus", "MinusNil"}
+	ops := []string{"MapKey", "MapValue", "Add", "Add0", "RemoveKeys", "RemoveKeys0", "Clone", "Union", "UnionNil", "Intersection", "IntersectionNil", "Minus", "MinusNil",
+		"RemoveValues", "RemoveValuesNil", "RemoveValues0"}
 	op := ops[vfChoose("op", len(ops))]
 	x, probe := vfInt("x"), vfInt("probe")
 	inA, inB := vfMember(a, probe), vfMember(b, probe)
@@ -611,6 +612,15 @@ func vh_C04_SetForInterface() {
 			wantHas, mayBeReceiver = vfAnd(inA, !inB), len(b) == 0
 		case "MinusNil":
 			r = s.Minus(nil)
+			wantHas, mayBeReceiver = inA, true
+		case "RemoveValues": // every value of a set built from keys is nil: no entry holds x
+			r = s.RemoveValues(x)
+			wantHas = inA
+		case "RemoveValuesNil": // ... and every entry holds nil
+			r = s.RemoveValues(nil)
+			wantHas = false
+		case "RemoveValues0":
+			r = s.RemoveValues()
 			wantHas, mayBeReceiver = inA, true
 		}
 	})
@@ -766,5 +776,167 @@ func vh_C04_TwoOps() {
 	_ = s2
 	vfAssert(op1+"+"+op2+"/first-collection-intact", vfSliceEq([]int(*s0), a))
 	vfAssert(op1+"+"+op2+"/first-result-intact", vfSliceEq([]int(*s1), mid))
+	vfReach("end")
+}
+
+// ---------- constructors and observers: Len / Get / Contains / ToArray / keys / values agree with what was put in ----------
+
+func vh_C04_Constructors() {
+	vfSetMapOrder(2)
+	a := vfIntList("a", 2, 0)
+	probe := vfInt("probe")
+	member := vfMember(a, probe)
+	switch vfChoose("family", 8) {
+	case 0, 1: // generic streams
+		var s *StreamDef[int]
+		if vfChoose("ctor", 2) == 0 {
+			s = StreamFrom(append([]int{}, a...)...)
+		} else {
+			s = StreamFromArray(append([]int{}, a...))
+		}
+		vfAssert("len", s.Len() == len(a))
+		for i := range a {
+			vfAssert("get", s.Get(i) == a[i])
+		}
+		vfAssert("contains", s.Contains(probe) == member)
+		arr := s.ToArray()
+		vfAssert("toarray", vfSliceEq(arr, a))
+		if len(arr) > 0 {
+			arr[0] = vfInt("overwrite")
+			vfAssert("toarray-write-does-not-reach-stream", s.Get(0) == a[0])
+		}
+	case 2, 3: // interface{} streams
+		var s *StreamForInterfaceDef
+		switch vfChoose("ctor", 3) {
+		case 0:
+			s = StreamForInterface.FromArrayInt(a)
+		case 1:
+			s = StreamForInterface.From(c05Box(a)...)
+		default:
+			s = StreamForInterface.FromArray(c05Box(a))
+		}
+		vfAssert("len", s.Len() == len(a))
+		for i := range a {
+			vfAssert("get", s.Get(i) == interface{}(a[i]))
+		}
+		vfAssert("contains", s.Contains(probe) == member)
+		vfAssert("toarray", vfSliceEq(c04Unbox(s), a))
+	case 4: // generic sets from keys: every key present with the zero value
+		var s *MapSetDef[int, int]
+		if vfChoose("ctor", 2) == 0 {
+			s = SetFrom[int, int](a...)
+		} else {
+			s = SetFromArray[int, int](a)
+		}
+		vfAssert("contains", s.ContainsKey(probe) == member)
+		vfAssert("value", vfImplies(member, s.Get(probe) == 0))
+		vfAssert("len", s.Size() == len(ref03Distinct(a)))
+		vfAssert("keys", vfSameMultiset(s.Keys(), ref03Distinct(a)))
+		vfAssert("values", len(s.Values()) == s.Size() && s.ContainsValue(0) == (len(a) > 0))
+		vfAssert("contains-value", vfImplies(probe != 0, !s.ContainsValue(probe)))
+	case 5: // generic set from a map: values observable
+		m := vfIntMap("m", 2)
+		s := SetFromMap(m)
+		has := false
+		for _, v := range m {
+			has = vfOr(has, v == probe)
+		}
+		vfAssert("contains-value", s.ContainsValue(probe) == has)
+		vfAssert("values", vfSameMultiset(s.Values(), Values(m)))
+		vfAssert("len", s.Size() == len(m))
+	case 6: // interface{} sets
+		var s *SetForInterfaceDef
+		switch vfChoose("ctor", 4) {
+		case 0:
+			s = SetForInterfaceFrom(c05Box(a)...)
+		case 1:
+			s = SetForInterfaceFromArray(c05Box(a))
+		case 2: // from a map: values observable, RemoveValues removes exactly the entries holding that value
+			k1, k2, v1, v2 := vfInt("k1"), vfInt("k2"), vfInt("v1"), vfInt("v2")
+			vfAssume(k1 != k2)
+			fm := SetForInterfaceFromMap(map[interface{}]interface{}{k1: v1, k2: v2})
+			vfAssert("get", vfAnd(fm.Get(k1) == interface{}(v1), fm.Get(k2) == interface{}(v2)))
+			vfAssert("contains-value", fm.ContainsValue(probe) == vfOr(probe == v1, probe == v2))
+			rv := fm.RemoveValues(v1)
+			vfAssert("contains", vfAnd(!rv.ContainsKey(k1), rv.ContainsKey(k2) == (v2 != v1)))
+			vfAssert("get", vfAnd(fm.Get(k1) == interface{}(v1), fm.Size() == 2)) // the receiver keeps its entries
+			vfReach("end")
+			return
+		default: // typed-array constructors of the interface{} stream
+			var st *StreamForInterfaceDef
+			bs := []bool{vfBool("b0"), vfBool("b1")}
+			i8 := []int8{vfInt8("i8"), 2}
+			f64 := []float64{1.5, 2.5}
+			switch vfChoose("typed", 10) {
+			case 0:
+				st = StreamForInterface.FromArrayString([]string{"p", "q"})
+				vfAssert("get", st.Get(0) == interface{}("p") && st.Get(1) == interface{}("q"))
+			case 1:
+				st = StreamForInterface.FromArrayBool(bs)
+				vfAssert("get", vfAnd(st.Get(0) == interface{}(bs[0]), st.Get(1) == interface{}(bs[1])))
+			case 2:
+				st = StreamForInterface.FromArrayByte([]byte{7, 9})
+				vfAssert("get", st.Get(0) == interface{}(byte(7)) && st.Get(1) == interface{}(byte(9)))
+			case 3:
+				st = StreamForInterface.FromArrayInt8(i8)
+				vfAssert("get", vfAnd(st.Get(0) == interface{}(i8[0]), st.Get(1) == interface{}(int8(2))))
+			case 4:
+				st = StreamForInterface.FromArrayInt16([]int16{3, 4})
+				vfAssert("get", st.Get(0) == interface{}(int16(3)) && st.Get(1) == interface{}(int16(4)))
+			case 5:
+				st = StreamForInterface.FromArrayInt32([]int32{3, 4})
+				vfAssert("get", st.Get(0) == interface{}(int32(3)) && st.Get(1) == interface{}(int32(4)))
+			case 6:
+				st = StreamForInterface.FromArrayInt64([]int64{3, 4})
+				vfAssert("get", st.Get(0) == interface{}(int64(3)) && st.Get(1) == interface{}(int64(4)))
+			case 7:
+				st = StreamForInterface.FromArrayFloat32([]float32{1.5, 2.5})
+				vfAssert("get", st.Get(0) == interface{}(float32(1.5)) && st.Get(1) == interface{}(float32(2.5)))
+			case 8:
+				st = StreamForInterface.FromArrayFloat64(f64)
+				vfAssert("get", st.Get(0) == interface{}(1.5) && st.Get(1) == interface{}(2.5))
+			default:
+				m0, m1 := Maybe.Just(1), Maybe.Just(nil)
+				st = StreamForInterface.FromArrayMaybe([]MaybeDef[interface{}]{m0, m1})
+				vfAssert("get", st.Get(0).(MaybeDef[interface{}]).IsPresent() && st.Get(1).(MaybeDef[interface{}]).IsNil())
+			}
+			vfAssert("len", st.Len() == 2)
+			vfReach("end")
+			return
+		}
+		vfAssert("contains", s.ContainsKey(probe) == member)
+		vfAssert("len", s.Size() == len(ref03Distinct(a)))
+		vfAssert("values", len(s.Values()) == s.Size())
+	default: // stream sets from keys: every key present with an empty stream of its own
+		var keysOf func(k int) bool
+		var size int
+		if vfChoose("ctor", 2) == 0 {
+			var g *StreamSetDef[int, int]
+			if vfChoose("variadic", 2) == 0 {
+				g = StreamSetFrom[int, int](a...)
+			} else {
+				g = StreamSetFromArray[int, int](a)
+			}
+			keysOf, size = g.ContainsKey, g.Size()
+			for _, st := range g.MapSetDef {
+				vfAssert("value", st != nil && st.Len() == 0)
+			}
+		} else {
+			var t *StreamSetForInterfaceDef
+			switch vfChoose("variadic", 4) {
+			case 0:
+				t = StreamSetForInterfaceFrom(c05Box(a)...)
+			case 1:
+				t = StreamSetForInterfaceFromArray(c05Box(a))
+			case 2:
+				t = StreamSetFromInterface(c05Box(a)...)
+			default:
+				t = StreamSetFromArrayInterface(c05Box(a))
+			}
+			keysOf, size = func(k int) bool { return t.ContainsKey(k) }, t.Size()
+		}
+		vfAssert("contains", keysOf(probe) == member)
+		vfAssert("len", size == len(ref03Distinct(a)))
+	}
 	vfReach("end")
 }
